@@ -232,6 +232,8 @@ type rewriter struct {
 	counts   map[string]int
 	tmp      int
 	useSimrt bool
+	captured map[*types.Var]bool // locals that a function literal declared elsewhere refers to
+	noWrap   map[ast.Expr]bool   // identifiers already embedded in an instrumentation call
 }
 
 func (rw *rewriter) site(kind string) string {
@@ -306,6 +308,9 @@ func (rw *rewriter) isMap(e ast.Expr) bool {
 // ---------------------------------------------------------------------------
 
 func (rw *rewriter) rewriteFile(f *ast.File) {
+	rw.captured = map[*types.Var]bool{}
+	rw.noWrap = map[ast.Expr]bool{}
+	rw.findCaptured(f)
 	for _, d := range f.Decls {
 		switch d := d.(type) {
 		case *ast.FuncDecl:
@@ -451,6 +456,15 @@ func (rw *rewriter) stmt(s ast.Stmt) ast.Stmt {
 		if rw.isMap(s.X) {
 			return rw.rangeMap(s)
 		}
+		if *raceMode && s.Tok == token.DEFINE {
+			var pre []ast.Stmt
+			for _, e := range []ast.Expr{s.Key, s.Value} {
+				if e != nil && !isBlank(e) && rw.isCaptured(e) {
+					pre = append(pre, &ast.ExprStmt{X: rw.simrt("W", &ast.UnaryExpr{Op: token.AND, X: e}, str(rw.file+":loopvar "+e.(*ast.Ident).Name+"@"+rw.posSite(e)))})
+				}
+			}
+			s.Body.List = append(pre, s.Body.List...)
+		}
 		return s
 	case *ast.SelectStmt:
 		return rw.selectStmt(s)
@@ -512,6 +526,64 @@ func (rw *rewriter) goStmt(s *ast.GoStmt) ast.Stmt {
 	return &ast.BlockStmt{List: pre}
 }
 
+// varOf: the local variable an identifier denotes (use or definition).
+func (rw *rewriter) varOf(e ast.Expr) *types.Var {
+	x, ok := e.(*ast.Ident)
+	if !ok {
+		return nil
+	}
+	if v, ok := rw.info.Uses[x].(*types.Var); ok {
+		return v
+	}
+	if v, ok := rw.info.Defs[x].(*types.Var); ok {
+		return v
+	}
+	return nil
+}
+
+// isCaptured: is e a local variable that some function literal declared
+// elsewhere refers to (so that it may be shared with another goroutine)?
+func (rw *rewriter) isCaptured(e ast.Expr) bool {
+	v := rw.varOf(e)
+	return v != nil && rw.captured[v]
+}
+
+// loopVarLHS: the loop variable as assignment target of the per-iteration
+// write; in race mode the write to a captured variable is recorded.
+func (rw *rewriter) loopVarLHS(e ast.Expr) ast.Expr {
+	if *raceMode && rw.isCaptured(e) {
+		rw.noWrap[e] = true
+		call := rw.simrt("W", &ast.UnaryExpr{Op: token.AND, X: e}, str(rw.file+":loopvar "+e.(*ast.Ident).Name+"@"+rw.posSite(e)))
+		return &ast.StarExpr{X: call}
+	}
+	return e
+}
+
+// findCaptured fills rw.captured for one file.
+func (rw *rewriter) findCaptured(f *ast.File) {
+	ast.Inspect(f, func(n ast.Node) bool {
+		lit, ok := n.(*ast.FuncLit)
+		if !ok {
+			return true
+		}
+		ast.Inspect(lit.Body, func(m ast.Node) bool {
+			x, ok := m.(*ast.Ident)
+			if !ok {
+				return true
+			}
+			v, ok := rw.info.Uses[x].(*types.Var)
+			if !ok || v.IsField() || v.Pkg() != rw.pkg || v.Parent() == rw.pkg.Scope() {
+				return true
+			}
+			if v.Pos() < lit.Pos() || v.Pos() > lit.End() {
+				rw.captured[v] = true
+			}
+			return true
+		})
+		return true
+	})
+}
+
 func (rw *rewriter) rangeChan(s *ast.RangeStmt) ast.Stmt {
 	ch := rw.name("ch")
 	ok := rw.name("ok")
@@ -522,9 +594,15 @@ func (rw *rewriter) rangeChan(s *ast.RangeStmt) ast.Stmt {
 	if !isBlank(s.Key) {
 		key = s.Key
 	}
-	if s.Tok == token.ASSIGN && !isBlank(s.Key) {
+	if !isBlank(s.Key) {
+		// one variable for the whole loop, assigned per iteration: the module's
+		// language version (go 1.13) has per-loop, not per-iteration, loop variables
 		pre = append(pre, &ast.DeclStmt{Decl: &ast.GenDecl{Tok: token.VAR, Specs: []ast.Spec{&ast.ValueSpec{Names: []*ast.Ident{ok}, Type: id("bool")}}}})
-		recv = assign([]ast.Expr{key, ok}, rw.simrt("Recv2", ch))
+		if s.Tok == token.DEFINE {
+			pre = append(pre, define([]ast.Expr{key}, rw.simrt("ZeroElem", ch)))
+			pre = append(pre, assign([]ast.Expr{id("_")}, key))
+		}
+		recv = assign([]ast.Expr{rw.loopVarLHS(key), ok}, rw.simrt("Recv2", ch))
 	} else {
 		recv = define([]ast.Expr{key, ok}, rw.simrt("Recv2", ch))
 	}
@@ -563,10 +641,10 @@ func (rw *rewriter) rangeMap(s *ast.RangeStmt) ast.Stmt {
 	body = append(body, define([]ast.Expr{lhs0, ok}, idx))
 	body = append(body, &ast.IfStmt{Cond: &ast.UnaryExpr{Op: token.NOT, X: ok}, Body: &ast.BlockStmt{List: []ast.Stmt{&ast.BranchStmt{Tok: token.CONTINUE}}}})
 	if useK {
-		body = append(body, assign([]ast.Expr{s.Key}, k))
+		body = append(body, assign([]ast.Expr{rw.loopVarLHS(s.Key)}, k))
 	}
 	if useV {
-		body = append(body, assign([]ast.Expr{s.Value}, v))
+		body = append(body, assign([]ast.Expr{rw.loopVarLHS(s.Value)}, v))
 	}
 	body = append(body, s.Body.List...)
 	loop := &ast.RangeStmt{Key: id("_"), Value: k, Tok: token.DEFINE, X: rw.simrt("MapKeys", m), Body: &ast.BlockStmt{List: body}}
@@ -760,6 +838,10 @@ func (rw *rewriter) raceExprs(f *ast.File) {
 				for _, l := range s.Lhs {
 					writes[unparen(l)] = true
 				}
+			} else {
+				for _, l := range s.Lhs {
+					skip[unparen(l)] = true // (being declared, or re-assigned in a := with new neighbours)
+				}
 			}
 		case *ast.IncDecStmt:
 			writes[unparen(s.X)] = true
@@ -775,6 +857,13 @@ func (rw *rewriter) raceExprs(f *ast.File) {
 				if s.Value != nil {
 					writes[unparen(s.Value)] = true
 				}
+			} else {
+				if s.Key != nil {
+					skip[unparen(s.Key)] = true
+				}
+				if s.Value != nil {
+					skip[unparen(s.Value)] = true
+				}
 			}
 		}
 		return true
@@ -787,17 +876,28 @@ func (rw *rewriter) raceExprs(f *ast.File) {
 		}
 		switch x := e.(type) {
 		case *ast.Ident:
-			// package-level variable of the instrumented package
-			v, ok := rw.info.Uses[x].(*types.Var)
-			if !ok || v.IsField() || v.Pkg() != rw.pkg || v.Parent() != rw.pkg.Scope() {
+			// package-level variable of the instrumented package, or a local
+			// variable that a function literal captures
+			if rw.noWrap[x] {
 				return nil
+			}
+			v, ok := rw.info.Uses[x].(*types.Var)
+			if !ok || v.IsField() || v.Pkg() != rw.pkg {
+				return nil
+			}
+			kind := "var "
+			if v.Parent() != rw.pkg.Scope() {
+				if !rw.captured[v] {
+					return nil
+				}
+				kind = "captured "
 			}
 			done[x] = true
 			fn := "R"
 			if writes[x] {
 				fn = "W"
 			}
-			call := rw.simrt(fn, &ast.UnaryExpr{Op: token.AND, X: x}, str(rw.file+":var "+x.Name+"@"+rw.posSite(x)))
+			call := rw.simrt(fn, &ast.UnaryExpr{Op: token.AND, X: x}, str(rw.file+":"+kind+x.Name+"@"+rw.posSite(x)))
 			return &ast.ParenExpr{X: &ast.StarExpr{X: call}}
 		case *ast.StarExpr:
 			// *p = v where p points to a struct: every field is written
